@@ -90,6 +90,8 @@ pub(crate) async fn get_git_all_changes<'a>(
     };
 
     filtered_changes.sort();
+    // a path can be in both lists (removed from the index but still in the work tree)
+    filtered_changes.dedup();
     Ok(filtered_changes)
 }
 
